@@ -19,12 +19,16 @@ echo "demo tests: $tests"
 run_demo() {
   ok=1
   for t in $tests; do
+    ran=0
     for p in teos teos-common watchtower-plugin; do
       if grep -q "$p/" <<< "$(grep -h '^+++ b/' $D/demo.diff)"; then
         timeout 900 cargo test --offline -p $p $t -- --test-threads=1 > /tmp/confirm_demo.log 2>&1
-        if grep -qE "test result: FAILED|panicked|error\[" /tmp/confirm_demo.log || ! grep -qE "test result: ok. [1-9]" /tmp/confirm_demo.log; then ok=0; fi
+        if grep -qE "test result: FAILED|panicked|error\[" /tmp/confirm_demo.log; then ok=0; fi
+        if grep -qE "test result: ok. [1-9]" /tmp/confirm_demo.log; then ran=1; fi
       fi
     done
+    # a test lives in one package only: it must have run (and passed) somewhere
+    if [ $ran = 0 ]; then ok=0; fi
   done
   echo $ok
 }
